@@ -61,7 +61,7 @@ Fixpoint ck_decide (latest_del_bottom : bool) (i : nat) (newer : option vis) (ba
       else if is_latest && hard && bottom then false      (* tombstone kept: an older snapshot still reads below it *)
       else if is_latest && hard && negb bottom then false
       else if is_latest && rep then false
-      else if hard then true
+      else if hard then negb (versioning && negb bottom)   (* an older hard delete stays above the bottom level under versioning: it erases versions that may sit deeper *)
       else if barrier then true
       else if negb versioning then true
       else if 0 <? retention then (retention <? (now - vts v)) else false in
